@@ -1,6 +1,6 @@
 #!/bin/sh
-# usage: confirmseed.sh <ID> <k>   -- independently confirm a seeded change in a scratch worktree and keep it
-ID="$1"; K="$2"; SRC=/tmp/seed/out/$ID; WT=/tmp/seedconfirm-$ID-$K
+# usage: [SEEDSRC=/tmp/seed/out3] confirmseed.sh <ID> <k> [<k in seeded/>]   -- independently confirm a seeded change in a scratch worktree and keep it
+ID="$1"; K="$2"; SRC=${SEEDSRC:-/tmp/seed/out}/$ID; DK="${3:-$K}"; WT=/tmp/seedconfirm-$ID-$K
 git -C /repo worktree add --detach "$WT" HEAD -q || exit 2
 cd "$WT"
 CLEAN_DEMO=$( /venv/bin/python $SRC/demo$K.py >/dev/null 2>&1; echo $? )
@@ -11,7 +11,7 @@ cd /; git -C /repo worktree remove --force "$WT"; rm -rf "$WT.tmp"
 echo "$ID/$K clean_demo_exit=$CLEAN_DEMO patched_demo_exit=$PATCHED_DEMO tests='$TESTS'"
 case "$TESTS" in *"263 passed"*) ;; *) echo "REJECT: tests"; exit 1;; esac
 [ "$CLEAN_DEMO" = 0 ] && [ "$PATCHED_DEMO" != 0 ] || { echo "REJECT: demo"; exit 1; }
-D=/verif/seeded/$ID/$K; mkdir -p $D
+D=/verif/seeded/$ID/$DK; mkdir -p $D
 cp $SRC/patch$K.diff $D/patch.diff; cp $SRC/demo$K.py $D/demo.py
 /venv/bin/python - "$SRC/meta$K.json" "$D/meta.json" "$TESTS" "$CLEAN_DEMO" "$PATCHED_DEMO" <<'P'
 import json,sys
